@@ -282,6 +282,12 @@ impl StoreT {
 //@item foyer-storage/src/compress.rs :: enum Compression rules=derive-structural
 //@item foyer-storage/src/engine/block/serde.rs :: struct EntryHeader rules=derive-clone-copy
 pub struct BufT { pub bytes: Vec<u8> }
+impl BufT {
+    pub fn len(&self) -> (r: usize) ensures r == self.bytes@.len() { self.bytes.len() }
+    pub fn is_empty(&self) -> (r: bool) ensures r == (self.bytes@.len() == 0) { self.bytes.len() == 0 }
+}
+pub assume_specification<T>[ bool::then_some::<T> ](b: bool, t: T) -> (r: Option<T>)
+    ensures r == (if b { Some(t) } else { None::<T> });
 /// `&buf[..n]` / `&buf[n..]`
 #[verifier::external_body]
 pub fn verif_head<'a>(b: &'a BufT, n: usize) -> (r: &'a [u8]) requires n <= b.bytes@.len(), ensures r@ == b.bytes@.subrange(0, n as int) { unimplemented!() }
@@ -315,7 +321,7 @@ impl BlockT { pub fn statistics(&self) -> (r: &BlockStatsT) ensures *r == self.s
 pub open spec fn corrupt_kind_header(k: ErrorKind) -> bool { k == ErrorKind::Parse || k == ErrorKind::MagicMismatch || k == ErrorKind::ChecksumMismatch || k == ErrorKind::OutOfRange }
 pub open spec fn corrupt_kind_entry(k: ErrorKind) -> bool { k == ErrorKind::MagicMismatch || k == ErrorKind::ChecksumMismatch || k == ErrorKind::OutOfRange }
 
-//@region foyer-storage/src/engine/block/engine.rs :: impl~^impl<K, V, P> BlockEngine<K, V, P> where/fn load name=engine_load_decode start=/let header = match EntryHeader::read\(/ stmts=9 rules=drop-tracing,drop-metrics sub=@&buf\[\.\.EntryHeader::serialized_len\(\)\]@verif_head(&buf, EntryHeader::serialized_len())@ sub=@&buf\[EntryHeader::serialized_len\(\)\.\.\]@verif_tail(&buf, EntryHeader::serialized_len())@ sub=@EntryDeserializer::deserialize::<K, V>\(@EntryDeserializer::deserialize(@
+//@region foyer-storage/src/engine/block/engine.rs :: impl~^impl<K, V, P> BlockEngine<K, V, P> where/fn load name=engine_load_decode start=/let header = match EntryHeader::read\(/ stmts=99 rules=drop-tracing,drop-metrics sub=@&buf\[\.\.EntryHeader::serialized_len\(\)\]@verif_head(&buf, EntryHeader::serialized_len())@ sub=@&buf\[EntryHeader::serialized_len\(\)\.\.\]@verif_tail(&buf, EntryHeader::serialized_len())@ sub=@EntryDeserializer::deserialize::<K, V>\(@EntryDeserializer::deserialize(@
 //@head
 fn engine_load_decode(buf: BufT, hash: u64, indexer: &mut IndexerT, block: &BlockT, metrics: &LoadMetricsT) -> (r: Result<Load>)
     requires buf.bytes@.len() >= 36, // the read buffer is align_up(PAGE, addr.len) >= one page
